@@ -88,6 +88,13 @@ type world struct {
 	extraX func() bool
 	// noInviteCB: the client has no HandleInvite callback
 	noInviteCB bool
+	// known: the channels the application holds; its invitation callback asks
+	// each of them whether it is joined (an application deciding what to do
+	// with an invitation).  The answers are not judged here, the callback has
+	// to come back.
+	knownMu sync.Mutex
+	known   []*muc.Channel
+	asked   atomic.Int64
 
 	mu        sync.Mutex
 	queue     []*xmltree.Node
@@ -111,6 +118,13 @@ func newWorldOpt(noInviteCB bool) (*world, error) {
 	w.client = &muc.Client{
 		HandleInvite: func(i muc.Invitation) {
 			w.log.add(event{Ev: "cb", Op: "invite", M: i.Reason, Text: fmt.Sprintf("jid=%s password=%q continue=%v thread=%q", i.JID, i.Password, i.Continue, i.Thread)})
+			w.knownMu.Lock()
+			known := append([]*muc.Channel{}, w.known...)
+			w.knownMu.Unlock()
+			for _, ch := range known {
+				ch.Joined()
+				w.asked.Add(1)
+			}
 		},
 		HandleUserPresence: func(p stanza.Presence, it muc.Item) {
 			w.log.add(event{Ev: "cb", Op: "userpresence", Addr: p.From.String(), Typ: string(p.Type)})
